@@ -782,7 +782,14 @@ class Event(Component):
         This duration is calculated from the start and end of the event.
         You cannot set the duration as it is unclear what happens to start and end.
         """
-        return self.end - self.start
+        start, end = self.start, self.end
+        try:
+            return end - start
+        except TypeError as e:
+            raise InvalidCalendar(
+                "The start and the end must either both have a timezone or "
+                "both be in local time."
+            ) from e
 
     @property
     def start(self) -> date | datetime:
@@ -950,7 +957,14 @@ class Todo(Component):
         This duration is calculated from the start and end of the Todo.
         You cannot set the duration as it is unclear what happens to start and end.
         """
-        return self.end - self.start
+        start, end = self.start, self.end
+        try:
+            return end - start
+        except TypeError as e:
+            raise InvalidCalendar(
+                "The start and the end must either both have a timezone or "
+                "both be in local time."
+            ) from e
 
     X_MOZ_SNOOZE_TIME = _X_MOZ_SNOOZE_TIME
     X_MOZ_LASTACK = _X_MOZ_LASTACK
